@@ -70,10 +70,46 @@ def scenarios(ctx):
     return out
 
 
+def edge_lines(ctx):
+    """Every line-reading state of both directions is entered, then fed sequences of tiny degenerate lines, EACH IN ITS OWN CALL (and so in
+    its own exactly-sized heap buffer: an access one byte before or after the caller's buffer is a sanitizer report): lone LF, CRLF, lone
+    CR, whitespace-only lines, NUL, a lone separator - then a normal continuation.  All sequences up to a depth, for all states."""
+    import itertools
+    H = b"Host: h\r\n"
+    REQ = b"GET / HTTP/1.1\r\n" + H + b"\r\n"
+    atoms = [b"\n", b"\r\n", b"\r", b" ", b"\t\n", b"0\n", b"\x00\n", b";\n", b":\n", b"5", b"a"]
+    # (name, direction, other direction's bytes first, prefix that reaches the state, continuation)
+    states = [
+        ("req_line", ">", b"", b"", b"GET /x HTTP/1.1\r\n" + H + b"\r\n"),
+        ("req_headers", ">", b"", b"GET / HTTP/1.1\r\n", H + b"\r\n"),
+        ("req_chunk_len", ">", b"", b"POST / HTTP/1.1\r\n" + H + b"Transfer-Encoding: chunked\r\n\r\n", b"3\r\nabc\r\n0\r\n\r\n"),
+        ("req_chunk_end", ">", b"", b"POST / HTTP/1.1\r\n" + H + b"Transfer-Encoding: chunked\r\n\r\n3\r\nabc", b"\r\n0\r\n\r\n"),
+        ("req_trailer", ">", b"", b"POST / HTTP/1.1\r\n" + H + b"Transfer-Encoding: chunked\r\n\r\n0\r\n", b"X: y\r\n\r\n"),
+        ("req_finalize", ">", b"", b"GET /1 HTTP/1.1\r\n" + H + b"\r\n", b"GET /2 HTTP/1.1\r\n" + H + b"\r\n"),
+        ("req_body_cl", ">", b"", b"POST / HTTP/1.1\r\n" + H + b"Content-Length: 4\r\n\r\n", b"abcd"),
+        ("res_line", "<", REQ, b"", b"HTTP/1.1 200 OK\r\nContent-Length: 0\r\n\r\n"),
+        ("res_headers", "<", REQ, b"HTTP/1.1 200 OK\r\n", b"Content-Length: 0\r\n\r\n"),
+        ("res_chunk_len", "<", REQ, b"HTTP/1.1 200 OK\r\nTransfer-Encoding: chunked\r\n\r\n", b"3\r\nabc\r\n0\r\n\r\n"),
+        ("res_chunk_end", "<", REQ, b"HTTP/1.1 200 OK\r\nTransfer-Encoding: chunked\r\n\r\n3\r\nabc", b"\r\n0\r\n\r\n"),
+        ("res_trailer", "<", REQ, b"HTTP/1.1 200 OK\r\nTransfer-Encoding: chunked\r\n\r\n0\r\n", b"X: y\r\n\r\n"),
+        ("res_finalize", "<", REQ + REQ, b"HTTP/1.1 200 OK\r\nContent-Length: 0\r\n\r\n", b"HTTP/1.1 200 OK\r\nContent-Length: 0\r\n\r\n"),
+        ("res_body_close", "<", REQ, b"HTTP/1.0 200 OK\r\n\r\n", b"tail"),
+    ]
+    depth = 2 if ctx.quick else 3
+    out = []
+    for name, d, other, prefix, cont in states:
+        o = "<" if d == ">" else ">"
+        for n in range(1, depth + 1):
+            for k, seq in enumerate(itertools.product(range(len(atoms)), repeat=n)):
+                arr = ([(o, other)] if other else []) + ([(d, prefix)] if prefix else []) + [(d, atoms[i]) for i in seq] + [(d, cont)]
+                out.append(Scn("edge/%s.%s" % (name, "_".join(map(str, seq))), arr, {"wf": 0, "dump": 0, "cls": "edge", "pers": (k % 10)}, (), (), k % 3 != 0))
+    return out
+
+
 def run(ctx):
     if ctx.replay:
         return streams.replay(ctx, "alloc")
-    scns = scenarios(ctx)
+    scns = scenarios(ctx) + edge_lines(ctx)
     exe = vlib.build(ctx, "alloc", ["rec"])["rec"]
     files = streams.run_rec(ctx, exe, scns, "c01")
     execs, events, viols = streams.judge_obs(ctx, files, PROPS)
